@@ -5,8 +5,9 @@ R-C16.1  `try_coerce_to`, interpreted on every (actual, expected) pair over
          actual is strictly narrower in nat < int < float (the order is read from the enum
          body: member order + `__lt__`), asks the *actual* type for the conversion method
          named after the *expected* kind, and checks the call against the expected type.
-R-C16.2  who-may-call: the only call site is `check_type_against`, after unification of the
-         two types failed.
+R-C16.2  every caller of `try_coerce_to` is interpreted on unification {succeeds, fails} x coercion {possible, impossible}:
+         no attempt after a successful unification; exactly one attempt, with (actual, expected, node), after a failed one; its
+         result is what is returned, else a Guppy type error is raised (c16_callers.py; guard-shape rule only as fallback).
 R-C16.3  the three widening conversion methods exist on the std numeric types.
 Not decided: converted values.
 """
@@ -100,12 +101,11 @@ def run(ctx: Ctx) -> None:
         asked: list[tuple] = []
         checked: list[tuple] = []
 
-        def get_instance_func(node, e, env, asked=asked):
-            a = [e.ev(x, env) for x in node.args]
+        def get_instance_func(recv, a, asked=asked, checked=checked):
             asked.append((a[0], a[1]))
             return Tok("conv_fn", __methods__={"check_call": lambda recv, args, checked=checked: (checked.append(args), (Tok("coerced_node"), {}))[1]})
-        env = {ps[0]: act, ps[1]: exp, ps[2]: Tok("node"), ps[3]: Tok("ctx"),
-               "ctx.globals.get_instance_func": get_instance_func}
+        # the lookup is a method of the token (reached through any alias of `ctx.globals`), not a hook on one spelling
+        env = {ps[0]: act, ps[1]: exp, ps[2]: Tok("node"), ps[3]: Tok("ctx", globals=Tok("globals", __methods__={"get_instance_func": get_instance_func}))}
         n += 1
         try:
             out = ev.run_function(tc, env)
@@ -135,23 +135,26 @@ def run(ctx: Ctx) -> None:
                   "wrong conversion method is used")
 
     # ------------------------------------------------------------ R-C16.2 who may call
-    sites = []
-    for f in idx.iter_funcs(("guppylang_internals", "guppylang")):
-        for c in calls_in(f.node):
-            if call_name(c) == "try_coerce_to":
-                sites.append((f, c))
-    ctx.floor("R-C16.2", "try_coerce_to call sites", len(sites), 1)
-    for f, c in sites:
-        gs = lexical_guards(f.node, c) or []
-        after_unify_failed = any(isinstance(e, ast.Compare) and isinstance(e.ops[0], ast.Is) and isinstance(e.comparators[0], ast.Constant)
-                                 and e.comparators[0].value is None and pol for e, pol in gs)
-        # the tested name must come from unify(exp, act, ...)
-        unified = any(isinstance(n, ast.Assign) and isinstance(n.value, ast.Call) and call_name(n.value) == "unify" for n in walk_no_nested(f.node))
-        args_ok = len(c.args) >= 2 and [dotted(a) for a in c.args[:2]] == ["act", "exp"]
-        ctx.check(f.name == "check_type_against" and after_unify_failed and unified and args_ok, "R-C16.2",
-                  f"{f.qualname}#coerce-only-after-unify-failed", f"{f.module.rel}:{c.lineno}",
-                  {"caller": f.qualname, "guards": [(ast.unparse(e)[:50], p) for e, p in gs], "args": [ast.unparse(a) for a in c.args[:2]]},
-                  "implicit coercion is attempted somewhere other than the type-mismatch fallback, or with actual/expected swapped")
+    from . import c16_callers
+    if not c16_callers.run(ctx):
+        # fallback (a caller could not be interpreted): the call is lexically guarded by `<unify result> is None`
+        sites = []
+        for f in idx.iter_funcs(("guppylang_internals", "guppylang")):
+            for c in calls_in(f.node):
+                if call_name(c) == "try_coerce_to":
+                    sites.append((f, c))
+        ctx.floor("R-C16.2", "try_coerce_to call sites", len(sites), 1)
+        for f, c in sites:
+            gs = lexical_guards(f.node, c) or []
+            after_unify_failed = any(isinstance(e, ast.Compare) and isinstance(e.ops[0], ast.Is) and isinstance(e.comparators[0], ast.Constant)
+                                     and e.comparators[0].value is None and pol for e, pol in gs)
+            # the tested name must come from unify(exp, act, ...)
+            unified = any(isinstance(n, ast.Assign) and isinstance(n.value, ast.Call) and call_name(n.value) == "unify" for n in walk_no_nested(f.node))
+            args_ok = len(c.args) >= 2 and [dotted(a) for a in c.args[:2]] == ["act", "exp"]
+            ctx.check(f.name == "check_type_against" and after_unify_failed and unified and args_ok, "R-C16.2",
+                      f"{f.qualname}#coerce-only-after-unify-failed", f"{f.module.rel}:{c.lineno}",
+                      {"caller": f.qualname, "guards": [(ast.unparse(e)[:50], p) for e, p in gs], "args": [ast.unparse(a) for a in c.args[:2]]},
+                      "implicit coercion is attempted somewhere other than the type-mismatch fallback, or with actual/expected swapped")
 
     # ------------------------------------------------------------ R-C16.3 conversion methods exist
     num = idx.module("guppylang.std.num")
